@@ -1,11 +1,12 @@
 (* C11 — Export then import reproduces the ledger, and the copy stays writable.  Statements only; model Ledger/Import.v
    (tied to the real Export / Import / state tracker / Bulker by `vh importx`), proofs Ledger/ImportProofs.v, ImportSim.v.
 
-   FULL STATEMENT (kept for reference; REFUTED in three places by the faithful model, each confirmed on the real stack):
+   FULL STATEMENT (kept for reference; REFUTED in two places by the faithful model, each confirmed on the real stack; a third
+   refutation, the atomic bulk, was repaired):
      forall f h, let a := source f h in  import i_init (export a) succeeds with a copy b such that
        every observable of b (volumes, transactions, accounts incl. first usage / dates, metadata and metadata histories,
        logs, hashes) equals that of a, and a write through the single, non-atomic-bulk and ATOMIC-bulk path on b gives
-       what it gives on a, with log / transaction ids = max + 1.
+       what it gives on a, with log / transaction ids = max + 1.   (the atomic-bulk part held only after a repair)
    PROVED for EVERY feature set, history, hash function and import time (C11_roundtrip, no hypothesis on the history):
      the import of the export into the pristine ledger is ACCEPTED, leaves the ledger `initializing`, and reproduces
        volumes; every column of the transactions table except post-commit EFFECTIVE volumes (ids, postings, current metadata,
@@ -23,8 +24,9 @@
    REFUTED without the accounts hypothesis: C11_refuted_first_usage (SET_METADATA on an account lowers first_usage to the log
      date), C11_refuted_updated_at (DELETE_METADATA on an account is dated at the import, also in the metadata history).
    Writability: C11_writable_single (facade: state flip, log id = max + 1, transaction id = max + 1; an element of a
-     non-atomic bulk is such a write); REFUTED for the atomic bulk: C11_refuted_atomic_writable / C11_refuted_atomic_log_id
-     (never-resynchronised sequences: S-11). *)
+     non-atomic bulk is such a write); C11_writable_atomic (since the repair fixes/01-facade-begintx the atomic bulk runs the
+     same protocol: a one-element bulk IS the facade write); the behaviour before the repair (S-11: never-resynchronised
+     sequences) is kept as C11_unrepaired_atomic_writable / C11_unrepaired_atomic_log_id. *)
 From Coq Require Import List ZArith String Bool Ascii Lia Sorted.
 From LV Require Import Base.Util Base.Json Ledger.Types Ledger.Core Ledger.Bulk Ledger.Invariants Ledger.HashChain Ledger.Import Ledger.ImportProofs Ledger.ImportSim.
 Import ListNotations.
@@ -163,24 +165,56 @@ Proof.
 Qed.
 Print Assumptions C11_refuted_updated_at.
 
-(* S-11: after the import the copy is still `initializing`; an ATOMIC bulk goes to the inner controller, draws transaction
-   id 1 from the never-resynchronised sequence, hits the primary key (nil dereference in InsertTransaction, recovered by
-   the worker pool) and the final COMMIT reports the rollback; the same request through the facade succeeds with id 2 *)
-Theorem C11_refuted_atomic_writable : exists f h o,
+(* ATOMIC bulk, since the repair fixes/01-facade-begintx (the facade overrides BeginTX): a bulk of one element on the
+   still-initializing copy IS the facade write of that element: same tables, same hash column, the ledger in-use, and by
+   C11_writable_single log id = max + 1, transaction id = max + 1 *)
+Theorem C11_writable_atomic : forall (H : bytes -> bytes) pre f now b o s' lid tid,
+  i_l b = Initializing -> o_dry o = false -> step f now (resync (i_s b)) o = SR s' (ROk lid tid false) ->
+  w_atomic H pre f now b [o] = (fst (w_single H pre f now b o), AResults [ARes (BRes (Some (ROk lid tid false)))]).
+Proof. intros H pre f now b o s' lid tid. apply atomic_single_element. Qed.
+Print Assumptions C11_writable_atomic.
+
+(* the two witnesses of the defect (S-11), now POSITIVE: after an import the same request through the atomic path and
+   through the non-atomic path gives the same answer with the next ids ... *)
+Theorem C11_atomic_after_import_next_ids : exists f h o,
   let '(a, b, rs) := run_script f h [AImport 0 None 5000; AAtomic 6000 [o]] in
-  (exists b0, rs = [RImport None b0; RAtomic ACommitFailed]) /\
+  (exists b0, rs = [RImport None b0; RAtomic (AResults [ARes (BRes (Some (ROk 2 (Some 2) false)))])]) /\ i_l b = InUse /\
   let '(_, _, rs') := run_script f h [AImport 0 None 5000; ABulk 6000 [o]] in
   exists b0, rs' = [RImport None b0; RBulk [BRes (Some (ROk 2 (Some 2) false))]].
 Proof.
   exists fall, [(10, mk (ICreate [P "world" "bob" 5] None "" [] [] false))], (mk (ICreate [P "world" "alice" 7] None "" [] [] false)).
-  vm_compute. split; eexists; reflexivity.
+  vm_compute. split; [eexists; reflexivity|]. split; [reflexivity | eexists; reflexivity].
 Qed.
-Print Assumptions C11_refuted_atomic_writable.
+Print Assumptions C11_atomic_after_import_next_ids.
 
-(* the other face of S-11: when the imported ids do not start at 1 (the source spent log id 1 on a dry run) the atomic
-   bulk SUCCEEDS with log id 1, below the imported log 2: the journal order no longer is the write order *)
-Theorem C11_refuted_atomic_log_id : exists f h o,
+(* ... also when the imported ids do not start at 1: the new log gets id 3, above the imported log 2 *)
+Theorem C11_atomic_after_import_log_order : exists f h o,
   let '(a, b, rs) := run_script f h [AImport 0 None 5000; AAtomic 6000 [o]] in
+  map l_id (s_logs (i_s a)) = [2] /\ map l_id (s_logs (i_s b)) = [2; 3] /\
+  exists b0, rs = [RImport None b0; RAtomic (AResults [ARes (BRes (Some (ROk 3 None false)))])].
+Proof.
+  exists fnohash, [(10, {| o_in := ISetMeta (TAcc "bob") [("k", "v")]; o_ik := ""; o_dry := true |}); (20, mk (ISetMeta (TAcc "bob") [("k", "v")]))],
+         (mk (ISetMeta (TAcc "alice") [("k", "w")])).
+  vm_compute. repeat split. eexists; reflexivity.
+Qed.
+Print Assumptions C11_atomic_after_import_log_order.
+
+(* FOR THE RECORD, the code BEFORE the repair (w_atomic_unrepaired: BeginTX inherited, no flip, no resync), as confirmed on
+   the real stack (known finding KF-C11-atomic-bulk-after-import-unsynced-sequences, fixed): transaction id 1 is drawn
+   from the never-resynchronised sequence, hits the primary key (nil dereference in InsertTransaction, recovered by the
+   worker pool) and the final COMMIT reports the rollback; or, when the imported ids do not start at 1, the bulk succeeds
+   with log id 1 below the imported log 2 *)
+Theorem C11_unrepaired_atomic_writable : exists f h o,
+  let '(a, b, rs) := run_script f h [AImport 0 None 5000; AAtomicUnrepaired 6000 [o]] in
+  exists b0, rs = [RImport None b0; RAtomic ACommitFailed].
+Proof.
+  exists fall, [(10, mk (ICreate [P "world" "bob" 5] None "" [] [] false))], (mk (ICreate [P "world" "alice" 7] None "" [] [] false)).
+  vm_compute. eexists; reflexivity.
+Qed.
+Print Assumptions C11_unrepaired_atomic_writable.
+
+Theorem C11_unrepaired_atomic_log_id : exists f h o,
+  let '(a, b, rs) := run_script f h [AImport 0 None 5000; AAtomicUnrepaired 6000 [o]] in
   map l_id (s_logs (i_s a)) = [2] /\ map l_id (s_logs (i_s b)) = [2; 1] /\
   exists b0, rs = [RImport None b0; RAtomic (AResults [ARes (BRes (Some (ROk 1 None false)))])].
 Proof.
@@ -188,7 +222,7 @@ Proof.
          (mk (ISetMeta (TAcc "alice") [("k", "w")])).
   vm_compute. repeat split. eexists; reflexivity.
 Qed.
-Print Assumptions C11_refuted_atomic_log_id.
+Print Assumptions C11_unrepaired_atomic_log_id.
 
 Definition noseq (m : move) : move :=
   {| m_seq := 0; m_tx := m_tx m; m_acc := m_acc m; m_asset := m_asset m; m_amt := m_amt m; m_src := m_src m; m_ins := m_ins m;
